@@ -39,7 +39,12 @@ BUILTINS_USED = ["len", "id"]
 # what the body of a module that "raises" does.  _try_import / ModuleHandle.exists catch `Exception`:
 # every kind below must be treated alike (recorded in _IMPORT_FAILED, never attempted again)
 RAISE_KINDS = ["RuntimeError", "SyntaxError", "SyntaxError", "ImportError", "ModuleNotFoundError", "ZeroDivisionError",
-               "badsibling", "badfile", "AttributeError", "KeyError"]
+               "badsibling", "badfile", "AttributeError", "KeyError",
+               # exceptions that cannot be printed: str(e) / repr(e) raise (a message formatted eagerly inside the
+               # `except` block would escape before the failure is recorded)
+               "BadStr", "BadRepr", "BadStrRepr", "Unprintable"]
+LAZY = ["la", "lb"]                         # attributes served by a module-level __getattr__ (PEP 562)
+DUNDERS = ["__class__", "__dict__", "__name__", "__doc__"]   # attributes every module has (some live on the module TYPE)
 
 
 def rk(r, p):
@@ -65,6 +70,14 @@ def gen_world(r, clash):
             elif r.random() < .15:
                 # a file below a non-package: never importable
                 mods[top + ".sa"] = dict(pkg=False, attrs=["xa"], raises=False)
+    return mods
+
+
+def add_lazy(r, mods):
+    for d, m in mods.items():
+        if r.random() < .2:
+            m["lazy"] = [a for a in LAZY if r.random() < .7] or ["la"]
+            m["attrs"] = list(m["attrs"]) + m["lazy"]
     return mods
 
 
@@ -112,7 +125,8 @@ def pick_name(r, mods, db):
     if k < .45 and mods:
         d = r.choice(sorted(mods))
         a = mods[d]["attrs"]
-        return d + ("." + r.choice(a) if a and r.random() < .6 else "") + ("." + NEVER if r.random() < .1 else "")
+        return (d + ("." + r.choice(a) if a and r.random() < .6 else "") + ("." + NEVER if r.random() < .1 else "")
+                + ("." + r.choice(DUNDERS) if r.random() < .06 else ""))
     if k < .7 and db:
         return r.choice(db)[1] + ("." + r.choice(ATTR) if r.random() < .3 else "")
     if k < .75:
@@ -187,7 +201,13 @@ STMT2 = ["import %(m)s\n%(rm)s.xa", "import %(m)s as _al\n%(rm)s.xa\n_al", "impo
          "match 0:\n    case [_p, *_q] if %(a)s:\n        pass\n    case _ if %(b)s:\n        pass",
          "async def _c():\n    await %(a)s", "async def _c(_p=%(a)s):\n    async with %(b)s as _w:\n        pass",
          "if (_y := %(a)s):\n    pass", "_x = [_z for _i in (1,) if (_z := %(a)s)]", "type_ = %(a)s; lambda_ = %(b)s",
-         "from %(rm)s import *\n%(a)s", "from %(pm)s import *\n_x = %(b)s"]
+         "from %(rm)s import *\n%(a)s", "from %(pm)s import *\n_x = %(b)s",
+         "_x = [%(ad)s for %(ra)s in ()]\n%(ad)s", "_x = {%(ra)s: %(ad)s for %(ra)s in ()}\n_y = %(ad)s", "_x = list(%(ad)s for %(ra)s in ())\n%(ad)s",
+         "class _K:\n    %(ra)s = ''\n    _y = %(ad)s\n%(ad)s", "_f = lambda %(ra)s: %(ad)s\n%(ad)s", "def _g(%(ra)s):\n    return %(ad)s\n%(ad)s",
+         "def _g():\n    %(ra)s = 1\n    return %(ad)s\n_x = %(ad)s", "%(ad)s\n_x = [%(ad)s for %(ra)s in ()]\n%(ad)s",
+         "def _g():\n    for %(ra)s in ():\n        %(ad)s\ndef _h():\n    return %(ad)s\n%(ad)s",
+         "class _K:\n    def _m(self, %(ra)s):\n        return %(ad)s\n    _y = %(ad)s",
+         "_x = __file__", "%(ad)s\nclass %(ra)s:\n    pass"]
 
 
 def gen_stmt_code(r, mods, db):
@@ -198,6 +218,7 @@ def gen_stmt_code(r, mods, db):
         m = r.choice(dotted) if dotted and r.random() < .8 else (r.choice(sorted(mods)) if mods and r.random() < .7 else rand_name(r))
         pm, _, lm = m.rpartition(".")
         sub = {"a": a, "b": b, "ra": a.split(".")[0], "rb": b.split(".")[0], "m": m, "rm": m.split(".")[0],
+               "ad": a if "." in a else a + "." + r.choice(ATTR),
                "pm": pm or m, "lm": lm}
         parts.append(r.choice(STMT if r.random() < .5 else STMT2) % sub)
     return "\n".join(parts) + r.choice(["", "\n"])
@@ -281,7 +302,7 @@ def gen_case(seed, i):
     r = cm.rng(seed, "c06", i)
     stream = "main" if i % 5 else "boundary"
     boundary = stream == "boundary"
-    mods = gen_world(r, clash=boundary and r.random() < .5)
+    mods = add_lazy(r, gen_world(r, clash=boundary and r.random() < .5))
     db = rand_db(r, mods)
     forget = []
     nlev = r.choice([1, 2, 2, 2, 3])
@@ -318,7 +339,39 @@ def gen_case(seed, i):
                 code = r.choice(OK_WRAP) % code
             ops.append({"op": "call", "code": code})
     return {"i": i, "stream": stream, "mods": mods, "db": db, "forget": forget, "nss": nss,
-            "preload": preload, "ops": ops}
+            "preload": preload, "ops": ops,
+            "loglevel": r.choice(["ERROR", "ERROR", "WARNING", "INFO", "DEBUG"])}
+
+
+def gen_large_case(seed, i, ncalls=70):
+    """size is part of the quantifier: many failing DB imports in one cell, many names in one snippet,
+    many calls in one cell"""
+    r = cm.rng(seed, "c06-large", i)
+    k = i % 3
+    if k == 0:
+        # 140 distinct DB imports that all fail (the module they come from raises), then, in the same cell,
+        # early ones again under other dotted names: nothing may be executed a second time
+        mods = {"pa": dict(pkg=False, attrs=[], raises=r.choice(["RuntimeError", "BadStr", "SyntaxError"])),
+                "qa": dict(pkg=True, attrs=["xa"], raises=False)}
+        n = 140
+        db = [["pa.n%03d" % j, "k%03d" % j] for j in range(n)] + [["qa.xa", "xa"]]
+        names = ["k%03d" % j for j in range(n)]
+        ops = [{"op": "call", "code": " , ".join(names)},
+               {"op": "call", "code": "k000.xa , k001.xb + 1 , k%03d.zz" % (n - 1)},
+               {"op": "call", "code": "xa , k002.xa.xb"}]
+        return {"i": i, "stream": "large-failed-cache", "mods": mods, "db": db, "forget": [], "nss": [{}, {}],
+                "preload": [], "ops": ops, "loglevel": "ERROR"}
+    mods = add_lazy(r, gen_world(r, clash=False))
+    db = rand_db(r, mods)
+    if k == 1:
+        ops = [{"op": "call", "code": " , ".join(pick_name(r, mods, db) for _ in range(300))},
+               {"op": "call", "code": "\n".join("_x%d = %s" % (j, pick_name(r, mods, db)) for j in range(150))}]
+        stream = "large-snippet"
+    else:
+        ops = [{"op": "call", "code": gen_code(r, mods, db)} for _ in range(ncalls)]
+        stream = "large-cell"
+    return {"i": i, "stream": stream, "mods": mods, "db": db, "forget": [], "nss": [{}, {}],
+            "preload": [], "ops": ops, "loglevel": "ERROR"}
 
 
 def gen_shadow_case(seed, i):
@@ -422,7 +475,12 @@ def write_world(root, mods):
     for d, m in mods.items():
         path = os.path.join(root, *d.split("."))
         src = "__import__('builtins')._verif_log.append(['exec', __name__])\n"
-        src += "".join("%s = 'val:%s.%s'\n" % (a, d, a) for a in m["attrs"])
+        lazy = m.get("lazy", [])
+        src += "".join("%s = 'val:%s.%s'\n" % (a, d, a) for a in m["attrs"] if a not in lazy)
+        if lazy:
+            src += "__lazy__ = {%s}\n" % ", ".join("%r: 'val:%s.%s'" % (a, d, a) for a in lazy)
+            src += ("def __getattr__(name):\n    try:\n        return __lazy__[name]\n    except KeyError:\n"
+                    "        raise AttributeError(name)\ndef __dir__():\n    return sorted(list(globals()) + list(__lazy__))\n")
         kind = m["raises"]
         if kind is True:
             kind = "RuntimeError"
@@ -430,6 +488,15 @@ def write_world(root, mods):
             src += "import vbadsyn\n"                       # a sibling that does not compile: SyntaxError
         elif kind == "badfile":
             src = "def (:\n"                                 # the file itself does not compile (body never runs)
+        elif kind in ("BadStr", "BadRepr", "BadStrRepr"):
+            src += "class _E(Exception):\n"
+            if kind != "BadRepr":
+                src += "    def __str__(self):\n        raise RuntimeError('str of the exception fails')\n"
+            if kind != "BadStr":
+                src += "    def __repr__(self):\n        raise RuntimeError('repr of the exception fails')\n"
+            src += "raise _E('boom')\n"
+        elif kind == "Unprintable":
+            src += "class _A(object):\n    def __repr__(self):\n        raise RuntimeError('unprintable argument')\nraise ValueError(_A())\n"
         elif kind:
             src += "raise %s('boom')\n" % kind
         if m["pkg"]:
@@ -480,6 +547,8 @@ def child_main(case, root):
     known = ImportSet([Import.from_parts(f, a) for f, a in case["db"]])
     forget = ImportSet([Import.from_parts(f, a) for f, a in case["forget"]])
     db = ImportDB._from_data(known, [], [], forget) if case["forget"] else ImportDB(known)
+    from pyflyby._log import logger as _pfl
+    _pfl.set_level(case.get("loglevel", "ERROR"))
     for d in case["preload"]:
         try:
             importlib.import_module(d)
@@ -589,6 +658,11 @@ def child_main(case, root):
                 if isinstance(md, dict):
                     attrs[nm] = {k: _canon(v, vals) for k, v in md.items()
                                  if not k.startswith("__")}
+                    for a in case["mods"].get(nm, {}).get("lazy", []):
+                        try:
+                            attrs[nm][a] = _canon(getattr(m, a), vals)
+                        except Exception:
+                            pass
         return {"nss": [{k: _canon(v, vals) for k, v in ns.items() if k != "__builtins__"} for ns in nss],
                 "loaded": loaded, "attrs": attrs,
                 "cell": {str(k): bool(v) for k, v in holder["cell"].items()},
@@ -619,6 +693,7 @@ def child_main(case, root):
             pre_cell = dict(holder["cell"])
             pre_failed = set(A._IMPORT_FAILED)
             rec["try"], rec["exec"], rec["missing"], rec["sym"] = [], [], None, []
+            step["imprecise"] = precise_probe(orig_fmi, code, nss)
             try:
                 r = A.auto_import(code, nss, db=db, autoimported=holder["cell"])
                 step["r"] = bool(r)
@@ -679,6 +754,37 @@ def _in_grandchild(fn):
     os.close(rfd)
     os.waitpid(pid, 0)
     return json.loads(buf.decode()) if buf else {"__probe_exc__": "nothing"}
+
+
+def precise_probe(fmi, code, nss):
+    """names find_missing_imports reports although the dotted read succeeds right now in the merged
+    namespaces (root bound, every getattr succeeds) - evaluated in a forked copy"""
+    try:
+        missing = [str(x) for x in fmi(code, nss)]
+    except BaseException:
+        return []
+    if not missing or len(missing) > 40:
+        return []
+
+    def fn():
+        g = {}
+        for ns in nss:
+            g.update(ns)
+        bad = []
+        for name in missing:
+            parts = name.split(".")
+            if parts[0] not in g:
+                continue
+            v = g[parts[0]]
+            try:
+                for p_ in parts[1:]:
+                    v = getattr(v, p_)
+            except BaseException:
+                continue
+            bad.append(name)
+        return bad
+    res = _in_grandchild(fn)
+    return res if isinstance(res, list) else []
 
 
 def exec_probe(code, nss):
@@ -788,7 +894,7 @@ def c_imp(nm, e):
 
 def c_mods(nm, mods):
     return cm.clist([cm.cpair(c_dotted(nm, d), "(%s, %s, %s)" % (
-        cm.cbool(m["pkg"]), cm.clist([cm.cN(nm.id(a)) for a in m["attrs"]]), cm.cbool(m["raises"])))
+        cm.cbool(m["pkg"]), cm.clist([cm.cN(nm.id(a)) for a in m["attrs"] + DUNDERS]), cm.cbool(m["raises"])))
         for d, m in sorted(mods.items())])
 
 
@@ -846,7 +952,7 @@ def d_state(nm, st):
     loaded = first_wins((d_dotted(nm, k), d_obj(nm, v)) for k, v in st["loaded"])
     attrs = {}
     for o, k, v in st["attrs"]:
-        if o[0] == "m":
+        if o[0] == "m" and not nm.name(k).startswith("__"):
             attrs.setdefault(d_dotted(nm, o[1]), {}).setdefault(nm.name(k), d_obj(nm, v))
     log = []
     for e in st["log"]:
@@ -1005,6 +1111,22 @@ def has_star_import(code):
         return False
 
 
+def is_dunder_file(nameerror):
+    """classifier of F07e: `_builtins2 = {"__file__": None}` makes __file__ always count as defined"""
+    return (nameerror or "").startswith("name '__file__' is not defined")
+
+
+def is_class_later(code, nameerror):
+    """classifier of C05's F10-class seen through C07: the NameError is for a name that a LATER `class`
+    statement of the snippet defines (visit_ClassDef removes it from the missing list)"""
+    import re
+    m = re.match(r"name '([^']+)' is not defined", nameerror or "")
+    try:
+        return bool(m) and any(isinstance(n, ast.ClassDef) and n.name == m.group(1) for n in ast.walk(ast.parse(code)))
+    except SyntaxError:
+        return False
+
+
 def has_dotted_key(case, prev):
     """classifier of F07b (outside the hypothesis plain_keys of C07_success_resolves_partial):
     some namespace of the stack has a key that is not a plain identifier"""
@@ -1048,6 +1170,8 @@ def oracle(ctx, prop, case, im, wfp=False):
                 bad.append(("no_internal_error", "call %d (%r) raised %s" % (k, code, st["r"])))
             prev = cur
             continue
+        if st.get("imprecise") and not has_dotted_key(case, prev):
+            bad.append(("missing_precise", "call %d (%r): %r reported missing although the dotted read succeeds in the given namespaces" % (k, code, st["imprecise"])))
         if prop == "C06":
             # frame: every pre-existing binding is still there with the identical object
             if not st["kept"]:
@@ -1094,6 +1218,10 @@ def oracle(ctx, prop, case, im, wfp=False):
             if st["r"] is True and st["nameerror"]:
                 if has_star_import(code):
                     ctx.known_hit("F07c", "a `from m import *` in the code switches missing-import reporting off (by design: the names it provides are unknown): True result, undefined names raise NameError")
+                elif is_dunder_file(st["nameerror"]):
+                    ctx.known_hit("F07e", "__file__ always counts as defined (_builtins2 = {'__file__': None}): True result, NameError in a namespace without __file__")
+                elif is_class_later(code, st["nameerror"]):
+                    ctx.known_hit("F10-class", "a module-level use of a name before a later `class` statement of that name is removed from the missing list (open finding of C05)")
                 elif is_attrstore(code, st["nameerror"]):
                     ctx.known_hit("F10-attrstore", "`a.b = v` with `a` unbound: find_missing_imports does not report `a` (open finding of C05), so auto_import returns True and executing raises NameError")
                 elif has_dotted_key(case, prev):
@@ -1201,6 +1329,7 @@ def run_shared(ctx, prop, n=None, nf21=None):
     ctx.notes["trusted_base"] = ["one interpreter state per case is obtained by fork() of a worker that has imported only pyflyby and the harness"]
     cases = (cm.load_corpus(prop) + [gen_case(ctx.seed, i) for i in range(n)]
              + [gen_shadow_case(ctx.seed, i) for i in range(nshadow)] + [gen_stale_case(ctx.seed, i) for i in range(nshadow // 2)]
+             + [gen_large_case(ctx.seed, i, 70 if ctx.quick else 200) for i in range(3 * ctx.scale if n >= 600 else 0)]
              + [gen_f21_case(ctx.seed, i) for i in range(nf21)])
     impl = cm.run_impl("c06", "impl_case", cases, timeout_case=40)
     exprs, nms, idxs = [], [], []
